@@ -329,7 +329,29 @@ fn random_schedule(rng: &mut StdRng, k: u64, max_pubs: u64, max_subs: u64, max_i
     let mut closed = false;
     let close_run = rng.gen_bool(0.3);
     let faulty = rng.gen_bool(0.5);
-    for _ in 0..len {
+    // one schedule in 50 contains a burst: a few hundred items ready at once for one poll (work done per
+    // poll must stay bounded by the data available, and nothing may be left behind without a wake-up)
+    let burst_at = if k % 50 == 7 { Some(rng.gen_range(2..len.max(3))) } else { None };
+    for stepno in 0..len {
+        if Some(stepno) == burst_at {
+            if pubs.is_empty() && !closed {
+                pubs.push((1, 0, false));
+                steps.push(Step { op: "reg_pub".into(), id: 1, which: String::new() });
+            }
+            if subs.is_empty() && !closed {
+                subs.push(1);
+                steps.push(Step { op: "reg_sub".into(), id: 1, which: String::new() });
+            }
+            if let Some(i) = (0..pubs.len()).find(|i| !pubs[*i].2) {
+                steps.push(Step { op: "poll".into(), id: 0, which: String::new() });
+                for _ in 0..rng.gen_range(130..400) {
+                    pubs[i].1 += 1;
+                    steps.push(Step { op: "publish".into(), id: pubs[i].0, which: String::new() });
+                }
+                steps.push(Step { op: "poll".into(), id: 0, which: String::new() });
+            }
+            continue;
+        }
         let r = rng.gen_range(0..100);
         let st = if r < 22 {
             Step { op: "poll".into(), id: 0, which: String::new() }
